@@ -61,7 +61,17 @@ func (t *Term) IsConst() bool { return t.Op == OpConst }
 func (t *Term) ID() int       { return t.id }
 
 // Ctx is a per-worker term table (not goroutine safe).
+type termKey struct {
+	op      Op
+	w       uint8
+	n       uint8
+	val     uint64
+	name    string
+	a, b, c int
+}
+
 type Ctx struct {
+	fast map[termKey]*Term
 	tab  map[string]*Term
 	n    int
 	Vars []*Term
@@ -69,13 +79,36 @@ type Ctx struct {
 }
 
 func NewCtx() *Ctx {
-	c := &Ctx{tab: map[string]*Term{}}
+	c := &Ctx{tab: map[string]*Term{}, fast: map[termKey]*Term{}}
 	c.T = c.mk(&Term{Op: OpConst, W: 0, Val: 1})
 	c.F = c.mk(&Term{Op: OpConst, W: 0, Val: 0})
 	return c
 }
 
 func (c *Ctx) mk(t *Term) *Term {
+	if len(t.Args) <= 3 { // the common case: a comparable key, no formatting
+		k := termKey{op: t.Op, w: t.W, n: uint8(len(t.Args)), val: t.Val, name: t.Name}
+		switch len(t.Args) {
+		case 3:
+			k.c = t.Args[2].id
+			fallthrough
+		case 2:
+			k.b = t.Args[1].id
+			fallthrough
+		case 1:
+			k.a = t.Args[0].id
+		}
+		if e, ok := c.fast[k]; ok {
+			return e
+		}
+		c.n++
+		t.id = c.n
+		c.fast[k] = t
+		if t.Op == OpVar {
+			c.Vars = append(c.Vars, t)
+		}
+		return t
+	}
 	var b strings.Builder
 	fmt.Fprintf(&b, "%d/%d/%d/%s", t.Op, t.W, t.Val, t.Name)
 	for _, a := range t.Args {
